@@ -57,9 +57,27 @@ static struct lent *lfind (void *p)
     return NULL;
 }
 
+/* long histories: forget blocks that were released long ago (only live entries are kept) */
+static void lcompact (void)
+{
+    static struct lent keep[LSIZE / 4];
+    int n = 0;
+    for (int i = 0; i < LSIZE; i++) if (ltab[i].state == 1 && n < LSIZE / 4) keep[n++] = ltab[i];
+    memset (ltab, 0, sizeof ltab);
+    lused = 0;
+    for (int k = 0; k < n; k++) {
+        unsigned h = lhash (keep[k].p);
+        for (int i = 0; i < LSIZE; i++) {
+            struct lent *e = &ltab[(h + i) & (LSIZE - 1)];
+            if (e->state == 0) { *e = keep[k]; lused++; break; }
+        }
+    }
+}
+
 static void ladd (void *p, size_t n, int tag)
 {
     if (!p) return;
+    if (lused >= LSIZE / 2) lcompact ();
     struct lent *e = lfind (p);
     if (!e) {
         if (lused >= LSIZE - 64) { sim_report ("harness:ledger-full", ""); return; }
